@@ -22,17 +22,19 @@ for pid in props:
         })
     else:
         na.append({'property_id': pid, 'reason': src['not_applicable'].get(pid, 'check not built yet (work in progress)')})
+import subprocess
+fixes = [l for l in subprocess.run(['git', '-C', '/repo', 'log', '--reverse', '--format=%h %s'], capture_output=True, text=True).stdout.splitlines() if l.split(' ', 1)[1].startswith('fix:')]
 m = {
     'version': 1,
     'setup_cmd': 'python3 /verif/tools/setup.py',
     'hooks': {'guard': 'LIBQB_VERIF',
               'enable': 'no hooks in /repo: contract clauses and ghost observers are spliced into a scratch copy of the real lib/*.c on every run (DESIGN.md 3.1)',
-              'baseline_off_cmd': 'make -C /repo -j8 check', 'source_commits': src.get('fix_commits', []), 'add_only': True},
+              'baseline_off_cmd': 'make -C /repo -j8 check', 'source_commits': [], 'add_only': True},
     'engines': [{'name': 'cbmc-contracts', 'path': '/verif/tools/runner.py', 'serves_properties': [c['property_id'] for c in checks],
                  'kind_free_text': 'splice contracts into the real C source, goto-cc, goto-instrument --dfcc (enforce/replace/loop contracts), cbmc SAT; native ASan replay of counterexamples'}],
     'checks': checks,
     'not_applicable': na,
-    'notes': src.get('notes', ''),
+    'notes': src.get('notes', '') + ' No hook commits exist in /repo (guard unused). Unguarded fix: commits in /repo (genuine defects repaired, see known_findings.json and DESIGN.md 10.2): ' + '; '.join(fixes),
 }
 json.dump(m, open(os.path.join(V, 'MANIFEST.json'), 'w'), indent=1)
 print('MANIFEST: %d checks, %d not_applicable' % (len(checks), len(na)))
